@@ -252,6 +252,46 @@ def validate(trace_module, cfg, trace_path, dfs=False, timeout=3600, heap="4g", 
     return r["results"][-1], r
 
 
+def validate_chunked(trace_module, cfg, trace_path, max_bytes=7_000_000, name=None, **kw):
+    """validate(), but a large trace is cut at `reset` events into chunks validated one after the other (TLC keeps the whole decoded
+    trace in memory: validation time grows faster than linearly beyond ~10 MB). Chunks start with a reset event, which re-initialises
+    everything a trace specification carries from run to run except paired-run references (base run of a variant, previous outcome of a
+    cutoff series): a cut is therefore only made at a reset whose role is not 'variant' / 'cut'. Line numbers in the combined result
+    refer to the whole trace."""
+    if os.path.getsize(trace_path) <= max_bytes:
+        return validate(trace_module, cfg, trace_path, name=name, **kw)
+    chunks, cur, size, first_line, lineno = [], [], 0, 1, 0
+    with open(trace_path) as f:
+        for l in f:
+            lineno += 1
+            if size > max_bytes and '"ev":"reset"' in l[:400 + l.find('"ev"') if l.find('"ev"') >= 0 else 0] and '"ev":"reset"' in l:
+                role = re.search(r'"role":"(\w+)"', l)
+                if not role or role.group(1) not in ("variant", "cut"):
+                    chunks.append((first_line, cur))
+                    cur, size, first_line = [], 0, lineno
+            cur.append(l)
+            size += len(l)
+    chunks.append((first_line, cur))
+    devs, total, states, last_r = [], 0, 0, None
+    for k, (fl, lines) in enumerate(chunks):
+        part = f"{trace_path}.part{k}"
+        with open(part, "w") as f:
+            f.writelines(lines)
+        res, r = validate(trace_module, cfg, part, name=(name or os.path.basename(trace_path)) + f"_p{k}", **kw)
+        os.remove(part)
+        if res["total"] != len(lines):
+            raise ToolError(f"trace length mismatch in chunk {k} of {trace_path}")
+        for d in res.get("devs", []):
+            d = list(d)
+            d[1] = d[1] + fl - 1
+            devs.append(d)
+        total += res["total"]
+        states += r["states"]
+        last_r = r
+    last_r = dict(last_r, states=states)
+    return {"total": total, "devs": devs}, last_r
+
+
 def count_lines(path):
     with open(path) as f:
         return sum(1 for _ in f)
